@@ -11,6 +11,8 @@ import ganzhi as G
 
 
 def run(ctx):
+    from rules import shared
+    ctx.include('effect_inventory', shared.effect_inventory)   # no new process-wide mutable state (MIR statics inventory)
     I = ctx.interp(fuel=20000000)
     t = T(I)
     p = ctx.prog
